@@ -402,22 +402,32 @@ Proof.
     apply H in Hb. lia.
 Qed.
 
-(* Main theorem: a non-zero xor pattern [e] that is a burst of at most 32
-   bits, applied to any slice [d] of a message of any length, changes the
-   CRC.  Nothing is assumed about [pre], [d], [post]. *)
-Theorem crc_detects_burst : forall pre d e post,
-  length d = length e -> wf_bytes e = true -> all_zero e = false ->
-  burst_le_32 e ->
-  crc_value (pre ++ xor_bytes d e ++ post) <> crc_value (pre ++ d ++ post).
+(* Introduction rule in shift form (e.g. for concrete patterns). *)
+Lemma burst_le_32_intro : forall e m o,
+  le_val e = m * 2 ^ o -> m < 4294967296 -> burst_le_32 e.
 Proof.
-  intros pre d e post Hlen Hwf Hnz [o Hb].
+  intros e m o HV Hm. exists o. intros i Hi. rewrite HV in Hi.
+  destruct (N.lt_ge_cases i o) as [Hlt|Hge].
+  - rewrite N.mul_pow2_bits_low in Hi by exact Hlt. discriminate.
+  - split; [exact Hge|].
+    rewrite N.mul_pow2_bits_high in Hi by exact Hge.
+    destruct (N.lt_ge_cases (i - o) 32) as [H32|H32]; [lia|].
+    rewrite (testbit_above m 32 (i - o)) in Hi; [discriminate|exact Hm|exact H32].
+Qed.
+
+(* A 32-bit burst that is not byte aligned: bit 7 of the first byte up to
+   bit 6 of the fifth. *)
+Example burst_unaligned_example : burst_le_32 [128; 255; 255; 255; 127].
+Proof. apply (burst_le_32_intro _ 4294967295 7); [reflexivity|lia]. Qed.
+
+Lemma burst_shape : forall e,
+  wf_bytes e = true -> all_zero e = false -> burst_le_32 e ->
+  exists m o, le_val e = m * 2 ^ N.of_nat o /\ (o <= 8 * length e)%nat /\
+              0 < m /\ m < 4294967296.
+Proof.
+  intros e Hwf Hnz [o Hb].
   destruct (burst_decomp _ _ Hb) as [HV Hm].
   set (m := N.shiftr (le_val e) o) in *.
-  assert (Hxx : xor_bytes (xor_bytes d e) d = e).
-  { clear - Hlen. revert e Hlen.
-    induction d as [|x d IH]; intros [|y e] H; cbn [xor_bytes length] in *;
-      try discriminate; [reflexivity|].
-    rewrite IH by lia. f_equal. xor_solve. }
   assert (Hne : le_val e <> 0).
   { intro H0. apply le_val_eq0 in H0; [congruence|exact Hwf]. }
   assert (Hm0 : 0 < m).
@@ -427,10 +437,41 @@ Proof.
   { apply (N.pow_lt_mono_r_iff 2); [lia|].
     apply N.le_lt_trans with (m := le_val e); [|exact HB].
     rewrite HV. pose proof (N.pow_nonzero 2 o). nia. }
-  apply (crc_detects_core pre (xor_bytes d e) d post m (N.to_nat o)).
+  exists m, (N.to_nat o). rewrite N2Nat.id. repeat split; try assumption.
+  unfold nlen in Ho. lia.
+Qed.
+
+(* Window injectivity: a non-zero burst pattern of any length (so also one
+   not byte aligned, spread over five bytes) leaves a non-zero register. *)
+Theorem burst_nonzero : forall e,
+  wf_bytes e = true -> all_zero e = false -> burst_le_32 e ->
+  fold_left crc_byte e 0 <> 0.
+Proof.
+  intros e Hwf Hnz Hb.
+  destruct (burst_shape e Hwf Hnz Hb) as (m & o & HV & Ho & Hm0 & Hm).
+  rewrite fold_crc_bits, N.lxor_0_l, HV.
+  apply crc_bits_burst_neq0; assumption.
+Qed.
+
+(* Main theorem: a non-zero xor pattern [e] that is a burst of at most 32
+   bits, applied to any slice [d] of a message of any length, changes the
+   CRC.  Nothing is assumed about [pre], [d], [post]. *)
+Theorem crc_detects_burst : forall pre d e post,
+  length d = length e -> wf_bytes e = true -> all_zero e = false ->
+  burst_le_32 e ->
+  crc_value (pre ++ xor_bytes d e ++ post) <> crc_value (pre ++ d ++ post).
+Proof.
+  intros pre d e post Hlen Hwf Hnz Hb.
+  destruct (burst_shape e Hwf Hnz Hb) as (m & o & HV & Ho & Hm0 & Hm).
+  assert (Hxx : xor_bytes (xor_bytes d e) d = e).
+  { clear - Hlen. revert e Hlen.
+    induction d as [|x d IH]; intros [|y e] H; cbn [xor_bytes length] in *;
+      try discriminate; [reflexivity|].
+    rewrite IH by lia. f_equal. xor_solve. }
+  apply (crc_detects_core pre (xor_bytes d e) d post m o).
   - apply xor_bytes_length. exact Hlen.
-  - rewrite Hxx, N2Nat.id. exact HV.
-  - rewrite xor_bytes_length by exact Hlen. unfold nlen in Ho. lia.
+  - rewrite Hxx. exact HV.
+  - rewrite xor_bytes_length by exact Hlen. rewrite Hlen. exact Ho.
   - exact Hm0.
   - exact Hm.
 Qed.
@@ -570,6 +611,22 @@ Proof.
   - reflexivity.
   - apply wf_bytes_cons. split; [exact Hp|reflexivity].
   - unfold all_zero. cbn [forallb]. rewrite andb_true_r. apply N.eqb_neq. lia.
+Qed.
+
+(* The bound 32 is optimal: the generator polynomial itself (33 bits,
+   1 + 2 * POLY, as the five bytes below) xored in at any byte position of any
+   message leaves the CRC unchanged. *)
+Theorem crc_burst_33_undetected : forall pre d post, length d = 5%nat ->
+  crc_value (pre ++ xor_bytes d [241; 118; 236; 5; 1] ++ post) =
+  crc_value (pre ++ d ++ post).
+Proof.
+  intros pre d post Hlen. unfold crc_value, crc_extend. f_equal.
+  rewrite !fold_left_app. f_equal.
+  set (r := fold_left crc_byte pre (N.lxor 0 M32)).
+  rewrite <- (N.lxor_0_r r) at 1.
+  rewrite fold_crc_byte_affine by exact Hlen.
+  replace (fold_left crc_byte [241; 118; 236; 5; 1] 0) with 0 by (vm_compute; reflexivity).
+  apply N.lxor_0_r.
 Qed.
 
 (* ------------------------------------------------------------------ *)
@@ -841,6 +898,8 @@ Print Assumptions crc_detects_window.
 Print Assumptions crc_detects_bit_flip.
 Print Assumptions crc_detects_byte_overwrite.
 Print Assumptions window_nonzero.
+Print Assumptions burst_nonzero.
+Print Assumptions crc_burst_33_undetected.
 Print Assumptions log_reader_rejects_altered_record.
 Print Assumptions log_record_crc_field_alteration_detected.
 Print Assumptions table_block_alteration_detected.
